@@ -83,6 +83,34 @@ EDGE_TEXTS = [
 ]
 
 
+# random token soup: the pieces the thirteen regexes react to, glued without any grammar (scanner and handler error paths)
+SOUP = ["a", "b1", "_", "7", "x", "*", "*", ":", "[", "]", ";", ";", ",", "{", "}", " ", " ", "\n", "\t", "\r", "=", "#", "$", "(", "+", "/", "'",
+        "enum", "flag", "struct", "union", "typedef", "#define", "#[", "uint8", "unsigned int", "char", "[2]", "[]", "[2][3]", ":3", "a;", "b;", " a, b;",
+        "enum E {A, B = 2};", "struct S { uint8 a; }", "#define K 2\n", "{ uint8 a; }", "} x, y;", "$l = {'a': 1}\n", "\x0c", "\x0b", "\xa0", "\u2028", "\x1c", "\u0663"]
+
+
+def soup(rnd, n):
+    return "".join(rnd.choice(SOUP) for _ in range(n))
+
+
+INSERTS = [" ", "\n", "\t", ";", ",", "*", ":", "[", "]", "{", "}", "=", "1", "a", "\r", "#", "/*x*/", "//y\n", "\xa0", "\x0c", "struct ", "enum ", " : 3", "[2]", "[]"]
+
+
+def char_mutant(rnd, t: str) -> str:
+    """0..3 character-level edits of a definition text (delete a character / a short run, insert a separator or a piece of syntax):
+    mostly texts the real parser rejects — the error paths of scanner and handlers next to valid input"""
+    for _ in range(rnd.randint(0, 3)):
+        i = rnd.randrange(len(t) + 1)
+        r = rnd.random()
+        if r < 0.4:
+            t = t[:i] + t[i + 1:]
+        elif r < 0.9:
+            t = t[:i] + rnd.choice(INSERTS) + t[i:]
+        else:
+            t = t[:i] + t[i + rnd.randint(1, 8):]
+    return t
+
+
 def live_table(dc) -> list:
     """(regex, token name) of the live `_tokencollection()`, in table order"""
     tok = dc.parser.TokenParser._tokencollection()
@@ -90,11 +118,16 @@ def live_table(dc) -> list:
     return [(rx, names.get(rx) if fn is not None else None) for rx, fn in tok.tokens]
 
 
+_SCANNERS: dict = {}
+
+
 def real_tokens(dc, text: str) -> list:
     """the tokens re.Scanner produces for the comment-stripped text: [(name, value)]"""
-    tok = dc.parser.TokenParser._tokencollection()
+    key = id(dc.parser)
+    if key not in _SCANNERS:
+        _SCANNERS[key] = re.Scanner(dc.parser.TokenParser._tokencollection().tokens)
     stripped = dc.parser.TokenParser._remove_comments(text)
-    toks, remaining = re.Scanner(tok.tokens).scan(stripped)
+    toks, remaining = _SCANNERS[key].scan(stripped)
     out = [(t.token, t.value) for t in toks]
     if remaining:
         out.append(("REMAINING", remaining))
